@@ -100,11 +100,17 @@ func NewTranslatorFileSystemKeyStore(directory string, encryptor keystore.KeyEnc
 // CheckIfPrivateKeyExists checks if Keystore has Translator transport private key for establishing Secure Session connection,
 // returns true if key exists in fs.
 func (store *TranslatorFileSystemKeyStore) CheckIfPrivateKeyExists(id []byte) (bool, error) {
+	if !keystore.ValidateID(id) {
+		return false, keystore.ErrInvalidClientID
+	}
 	return store.fs.Exists(filepath.Join(store.directory, getTranslatorKeyFilename(id)))
 }
 
 // GetPrivateKey reads and decrypts Translator transport private key for establishing Secure Session connection.
 func (store *TranslatorFileSystemKeyStore) GetPrivateKey(id []byte) (*keys.PrivateKey, error) {
+	if !keystore.ValidateID(id) {
+		return nil, keystore.ErrInvalidClientID
+	}
 	keyData, err := store.fs.ReadFile(filepath.Join(store.directory, getTranslatorKeyFilename(id)))
 	if err != nil {
 		return nil, err
